@@ -139,6 +139,23 @@ def impl(case):
     finally:
         sys.settrace(old)
     res["resid"] = [float(v) if v == v else None for v in _residual_px(w, p, sol, world)]
+    # the same points one at a time as scalars: reporting must not depend on the form of the input
+    sc = []
+    for i in list(range(min(2, len(world)))) + list(case.get("antipode_at", []))[:2]:
+        if not np.all(np.isfinite(world[i])):
+            continue
+        try:
+            with contextlib.redirect_stdout(io.StringIO()):
+                r = w.numerical_inverse(float(world[i, 0]), float(world[i, 1]), tolerance=m["tolerance"], maxiter=m["maxiter"], adaptive=m["adaptive"],
+                                        detect_divergence=m["detect_divergence"], quiet=False, with_bounding_box=False)
+            s1 = np.array([[float(np.asarray(v)) for v in r]])
+            rr = _residual_px(w, p, s1, world[i:i + 1])[0]
+            sc.append({"i": i, "raised": False, "resid": float(rr) if rr == rr else None, "type": type(r).__name__})
+        except gw.NoConvergence:
+            sc.append({"i": i, "raised": True})
+        except Exception as e:
+            sc.append({"i": i, "err": C.exc_enum(e)})
+    res["scalar"] = sc
     res["sol_nan"] = [bool(not np.all(np.isfinite(s))) for s in sol]
     res["world_nan"] = [bool(not np.all(np.isfinite(x))) for x in world]
     if "pre" in _SNAP:
@@ -202,6 +219,14 @@ def oracle(case, res):
             elif i not in listed:
                 out.append(("uncovered", "NoConvergence raised but row %d (residual %s px, tolerance %g) is in neither divergent %s nor slow_conv %s" %
                             (i, r, tol, res.get("divergent"), res.get("slow_conv"))))
+    for sc in res.get("scalar", []):
+        if "err" in sc:
+            out.append(("scalar", "scalar call for row %d raised %s" % (sc["i"], sc["err"])))
+        elif not sc["raised"] and (sc["resid"] is None or sc["resid"] > lim):
+            out.append(("scalar_unreported", "scalar input, quiet off, no exception, but the result for row %d (world given as two floats) maps forward %s px away (tolerance %g)" %
+                        (sc["i"], sc["resid"], tol)))
+        elif not sc["raised"] and sc.get("type") != "tuple":
+            out.append(("scalar_type", "scalar call returned a %s, not a tuple" % sc.get("type")))
     # convergence where designed to: aligned WCS, points inside the box, default or coarser tolerance, generous budget
     if case.get("designed") and res["raised"]:
         inside_bad = [i for i in (listed | set(bad_rows)) if case["where"][i] == "in"]
